@@ -228,6 +228,13 @@ func c17Writers(ev *vlib.Evidence, transport string, idx int) {
 		wg.Add(1)
 		go func(w int, seed int64) {
 			defer wg.Done()
+			defer func() {
+				// the websocket library panics when it detects interleaved writers
+				if p := recover(); p != nil {
+					ev.Violate("concurrent-writers:"+transport+":panic", map[string]interface{}{"panic": fmt.Sprint(p), "writers": writers})
+					wc.Close()
+				}
+			}()
 			rr := rand.New(rand.NewSource(seed))
 			for s := 0; s < per; s++ {
 				m := genMessage(rr, w, s, 60000)
